@@ -175,6 +175,32 @@ func (c *Config) Lookup(cls, name string) []*Method {
 	return nil
 }
 
+// LookupStatic returns the overloads of a class method visible on class cls (own, then extends chain).
+func (c *Config) LookupStatic(cls, name string) []*Method {
+	seen := map[string]bool{}
+	var walk func(k string) []*Method
+	walk = func(k string) []*Method {
+		if seen[k] {
+			return nil
+		}
+		seen[k] = true
+		cl := c.Classes[k]
+		if cl == nil {
+			return nil
+		}
+		if ms := cl.Stat[name]; len(ms) > 0 {
+			return ms
+		}
+		for _, e := range cl.Extends {
+			if ms := walk(e); ms != nil {
+				return ms
+			}
+		}
+		return nil
+	}
+	return walk(cls)
+}
+
 // ---- acceptance ---------------------------------------------------------------------------
 
 type Verdict int
@@ -326,6 +352,9 @@ func (m *Method) Accept(args []string) (v Verdict, reason string) {
 			}
 			rest = i
 		case a.Default:
+			if rest >= 0 {
+				return Unknown, "optional-after-rest"
+			}
 			opt++
 			seenDefault = true
 		default:
